@@ -1,5 +1,7 @@
 // native replay oracle for C17: WKT output against a model of the coordinate sequence (duplicates, undefined locations, rings), double2string
 #include <osmium/geom/wkt.hpp>
+#include <osmium/geom/wkb.hpp>
+#include <osmium/builder/attr.hpp>
 #include <osmium/geom/factory.hpp>
 #include <osmium/builder/osm_object_builder.hpp>
 #include <osmium/memory/buffer.hpp>
@@ -65,12 +67,37 @@ static int check_double2string(std::mt19937_64& rng) {
     return 0;
 }
 
+// a WKB factory that is used again after a geometry failed half way: the next result must be what a fresh factory gives
+static int check_wkb_reuse() {
+    using namespace osmium::builder::attr;
+    osmium::memory::Buffer buf{10240};
+    const auto bad_line = osmium::builder::add_way(buf, _id(1), _nodes({{1, {1.0, 1.0}}}));                                   // one point: create_linestring throws after linestring_start
+    const auto good_line = osmium::builder::add_way(buf, _id(2), _nodes({{1, {1.0, 1.0}}, {2, {2.0, 2.0}}, {3, {3.0, 1.0}}}));
+    const auto open_ring = osmium::builder::add_way(buf, _id(3), _nodes({{1, {0.0, 0.0}}, {2, {1.0, 0.0}}, {3, {1.0, 1.0}}}));  // not closed: create_polygon throws
+    const auto ring = osmium::builder::add_way(buf, _id(4), _nodes({{1, {0.0, 0.0}}, {2, {1.0, 0.0}}, {3, {1.0, 1.0}}, {1, {0.0, 0.0}}}));
+    for (auto wt : {osmium::geom::wkb_type::wkb, osmium::geom::wkb_type::ewkb}) {
+        osmium::geom::WKBFactory<> used{wt}; osmium::geom::WKBFactory<> fresh1{wt}; osmium::geom::WKBFactory<> fresh2{wt};
+        try { (void)used.create_linestring(buf.get<osmium::Way>(bad_line)); } catch (const std::exception&) {}
+        if (used.create_linestring(buf.get<osmium::Way>(good_line)) != fresh1.create_linestring(buf.get<osmium::Way>(good_line))) {
+            std::printf("WKB of a linestring created after a failed create_linestring differs from what a fresh factory creates (left-over bytes of the abandoned geometry)\nARGV: wkbreuse\n"); return 1; }
+        try { (void)used.create_polygon(buf.get<osmium::Way>(open_ring)); } catch (const std::exception&) {}
+        if (used.create_polygon(buf.get<osmium::Way>(ring)) != fresh2.create_polygon(buf.get<osmium::Way>(ring))) {
+            std::printf("WKB of a polygon created after a failed create_polygon differs from what a fresh factory creates\nARGV: wkbreuse\n"); return 1; }
+        try { (void)used.create_linestring(buf.get<osmium::Way>(bad_line)); } catch (const std::exception&) {}
+        if (used.create_polygon(buf.get<osmium::Way>(ring)) != fresh2.create_polygon(buf.get<osmium::Way>(ring))) {
+            std::printf("WKB of a polygon created after a failed create_linestring differs from what a fresh factory creates\nARGV: wkbreuse\n"); return 1; }
+    }
+    return 0;
+}
+
 int main(int argc, char** argv) {
+    if (argc > 1 && std::string(argv[1]) == "wkbreuse") return check_wkb_reuse();
     unsigned seed = argc > 2 ? unsigned(std::atoll(argv[2])) : 1; std::mt19937_64 rng(seed);
     std::string only = argc > 3 ? argv[3] : "";
     if (only.empty() || only.find("linestring") != std::string::npos || only.find("polygon") != std::string::npos || only.find("points") != std::string::npos) {
         for (int i = 0; i < 20000; ++i) if (check_linestring(rng)) return 1;
         if (check_multipolygon()) return 1; }
+    if (only.empty() || only.find("WKB") != std::string::npos || only.find("wkb") != std::string::npos) if (check_wkb_reuse()) return 1;
     if (only.empty() || only.find("double") != std::string::npos) if (check_double2string(rng)) return 1;
     std::printf("search: no disagreement found\n"); return 0;
 }
